@@ -1,9 +1,11 @@
 package main
 
-// The merge stream: small fragment-free, directive-free, variable-free documents in which
+// The merge stream: small fragment-free, variable-free documents in which
 // composite fields with sub-selections (and leaf fields) are repeated in one selection set with
 // equal / different arguments, aliases and names.  They exercise exactly the field-merging and
-// field-deduplication passes of the normaliser; the documents need not be valid.
+// field-deduplication passes of the normaliser; the documents need not be valid.  About a third of
+// the repeated fields carry applications of a repeatable directive (equal lists, permutations,
+// lists that are equal as sets but not as multisets, shorter / longer lists).
 
 import (
 	"gvh/common"
@@ -42,6 +44,49 @@ func varyArgs(r *common.Rand, a []Arg) []Arg {
 	return c
 }
 
+// mergeDirs: a list of 1-3 applications of a repeatable FIELD directive (nil most of the time)
+func (g *gen) mergeDirs() []Dir {
+	dds := repDirsAt(g.s, "FIELD")
+	if len(dds) == 0 || !g.r.Chance(1, 3) {
+		return nil
+	}
+	e := g.repEnv()
+	dd := common.PickOf(g.r, dds)
+	x := e.app(dd)
+	switch g.r.Pick(4) {
+	case 0:
+		return []Dir{x}
+	case 1:
+		return []Dir{x, cloneDir(x)}
+	case 2:
+		return []Dir{x, e.other(dd, x)}
+	}
+	return []Dir{x, e.app(dd), cloneDir(x)}
+}
+
+// varyDirs: the directive list of a repeated occurrence
+func (g *gen) varyDirs(d []Dir) []Dir {
+	c := cloneDirs(d)
+	if len(c) == 0 {
+		return c
+	}
+	dd := g.s.Dir(c[0].Name)
+	e := g.repEnv()
+	switch g.r.Pick(6) {
+	case 0: // same length, one application replaced: [X,X] -> [X,Y]
+		c[len(c)-1] = e.other(dd, c[0])
+	case 1:
+		c[0] = e.other(dd, c[0])
+	case 2:
+		g.r.Shuffle(len(c), func(i, j int) { c[i], c[j] = c[j], c[i] })
+	case 3:
+		c = c[1:]
+	case 4:
+		c = append(c, cloneDir(c[0]))
+	}
+	return c
+}
+
 func (g *gen) mergeSels(parent string, depth int) []*Sel {
 	r := g.r
 	td := g.s.Type(parent)
@@ -63,7 +108,7 @@ func (g *gen) mergeSels(parent string, depth int) []*Sel {
 	nl := 1 + r.Pick(3)
 	for i := 0; i < nl && len(leaves) > 0; i++ {
 		f := common.PickOf(r, leaves)
-		base := &Sel{Kind: 0, Name: f.Name, Args: g.mergeArgs(f)}
+		base := &Sel{Kind: 0, Name: f.Name, Args: g.mergeArgs(f), Dirs: g.mergeDirs()}
 		if r.Chance(1, 8) {
 			base.Alias = f.Name // self alias
 		} else if r.Chance(1, 6) {
@@ -72,6 +117,9 @@ func (g *gen) mergeSels(parent string, depth int) []*Sel {
 		out = append(out, base)
 		for k := r.Pick(3); k > 0; k-- {
 			c := base.Clone()
+			if len(c.Dirs) > 0 && r.Chance(2, 3) {
+				c.Dirs = g.varyDirs(c.Dirs)
+			}
 			switch r.Pick(5) {
 			case 0:
 				c.Args = varyArgs(r, c.Args)
@@ -91,14 +139,17 @@ func (g *gen) mergeSels(parent string, depth int) []*Sel {
 		nc := 1 + r.Pick(2)
 		for i := 0; i < nc; i++ {
 			f := common.PickOf(r, comps)
-			base := &Sel{Kind: 0, Name: f.Name, Args: g.mergeArgs(f)}
+			base := &Sel{Kind: 0, Name: f.Name, Args: g.mergeArgs(f), Dirs: g.mergeDirs()}
 			if r.Chance(1, 6) {
 				base.Alias = "ca"
 			}
 			base.Sels = g.mergeSels(f.T.Base(), depth+1)
 			out = append(out, base)
 			for k := 1 + r.Pick(3); k > 0; k-- {
-				c := &Sel{Kind: 0, Alias: base.Alias, Name: base.Name, Args: cloneArgs(base.Args)}
+				c := &Sel{Kind: 0, Alias: base.Alias, Name: base.Name, Args: cloneArgs(base.Args), Dirs: cloneDirs(base.Dirs)}
+				if len(c.Dirs) > 0 && r.Chance(2, 3) {
+					c.Dirs = g.varyDirs(c.Dirs)
+				}
 				switch r.Pick(7) {
 				case 0:
 					c.Args = varyArgs(r, c.Args)
